@@ -61,6 +61,7 @@ def check_property(pid, tier='quick', seed=0, replay_only=None):
     kf_ids = {k['obligation']: k for k in kf}
 
     obligations = {}
+    lost = {}
     failed = {}
     undecided = []
     trusted = []
@@ -79,6 +80,10 @@ def check_property(pid, tier='quick', seed=0, replay_only=None):
         for oid, msgs in r.failed.items():
             if oid in r.obligations and pid in r.obligations[oid]['props']:
                 failed[oid] = msgs
+        for la in getattr(r, 'lost', []):
+            oid = la['obligation']
+            if oid in r.obligations and pid in r.obligations[oid]['props']:
+                lost[oid] = la['reason']
         trusted += ['[%s] %s' % (u, t) for t in r.trusted]
         functions += [dict(f, unit=u) for f in r.functions if pid in f['props']]
         normlog += [dict(l, unit=u) for l in r.log]
@@ -152,6 +157,20 @@ def check_property(pid, tier='quick', seed=0, replay_only=None):
             lines.append('UNDECIDED property=%s obligation %s fails but was never recorded as discharged (not a violation)' % (pid, x))
     for k in known_hits:
         lines.append('KNOWN-FINDING: property=%s %s' % (pid, k['what']))
+    lost_viol = []
+    if lost and not undecided:
+        from . import replay as RP
+        for oid, why in lost.items():
+            if oid in kf_ids:
+                continue
+            info = obligations.get(oid) or {}
+            path, found = RP.make_replay(pid, oid, ['anchor lost, obligation not generated: ' + why], info, seed)
+            if found:
+                lost_viol.append(oid)
+                lines.append('VIOLATION property=%s replay=%s' % (pid, path))
+            else:
+                internal_only.append(oid)
+                lines.append('UNDECIDED property=%s the statement that obligation %s is attached to no longer exists (%s) and no failing input was found on the real code' % (pid, oid, why[:160]))
     if violations and not undecided:
         from . import replay as RP
         confirmed = []
@@ -169,13 +188,18 @@ def check_property(pid, tier='quick', seed=0, replay_only=None):
                 lines.append('UNDECIDED property=%s proof-internal obligation %s no longer holds (the proof needs repair) and no failing input was found on the real code; see %s' % (pid, oid, path))
         violations = [(o, m) for (o, m) in violations if o in confirmed]
         exit_code = 1 if violations else 2
+    if lost_viol:
+        violations = list(violations) + [(o, ['anchor lost; concrete failing input found by replay']) for o in lost_viol]
+        exit_code = 1
+    elif internal_only and exit_code == 0:
+        exit_code = 2
     elif violations:
         for oid, msgs in violations:
             lines.append('UNDECIDED property=%s obligation %s fails, but the unit is undecided so it is not reported as a violation' % (pid, oid))
 
     n_known = len([o for o in obligations if o in kf_ids and o in failed])
     n_obl = len(obligations) - n_known + sum(1 for k in kani_res if k.get('counts_as_proof'))
-    n_dis = len([o for o in obligations if o not in failed]) + sum(1 for k in kani_res if k.get('counts_as_proof') and k['status'] == 'ok')
+    n_dis = len([o for o in obligations if o not in failed and o not in lost]) + sum(1 for k in kani_res if k.get('counts_as_proof') and k['status'] == 'ok')
     ev = {
         'property_id': pid,
         'tier': tier,
